@@ -25,6 +25,7 @@ TreesL == {Lin3, Fork3}
 OneLin == {Lin3}
 OneReorg == {Reorg5}
 OneDeep == {Deep8}
+OneFork == {Fork3}
 
 NoOrder == <<>>
 NoConts == {}
